@@ -31,6 +31,9 @@ pub enum Refusal {
     StoreFails,
     Slow,
     Duplicated,
+    /// the reply arrives after 2.6 s, beyond the 2 s the consistency error *names* as its timeout: the issuer applies no
+    /// timeout of its own (the constant only appears in the error), so this is an acknowledgement like any other
+    TooSlow,
     /// the replica is a live member but does not serve the consistency service (it answers "unknown service"):
     /// a node between `connect()` and `add_extension()`, or one that never installs the extension
     NoService,
@@ -84,7 +87,8 @@ impl Prop for C06 {
 
     fn gen(&self, src: &mut Src) -> Case {
         let n_dcs = 1 + src.below(3);
-        let n = 1 + src.below(6);
+        // one cluster in forty is larger than the 10 requests the distributor and the poller keep in flight at once
+        let n = if src.chance(1, 40) { 11 + src.below(3) } else { 1 + src.below(6) };
         let style = src.below(3);
         let nodes: Vec<(u8, String)> = (0..n).map(|i| (i as u8 + 1, crate::c15::dc_name(style, src.below(n_dcs)))).collect();
         let issuer = src.below(n);
@@ -105,7 +109,7 @@ impl Prop for C06 {
             if i != issuer && src.chance(1, 3) {
                 behaviour.insert(
                     i,
-                    *src.pick(&[Refusal::RequestDropped, Refusal::ReplyDropped, Refusal::StoreFails, Refusal::Slow, Refusal::Duplicated, Refusal::NoService]),
+                    *src.pick(&[Refusal::RequestDropped, Refusal::ReplyDropped, Refusal::StoreFails, Refusal::Slow, Refusal::Duplicated, Refusal::NoService, Refusal::TooSlow]),
                 );
             }
         }
@@ -144,8 +148,8 @@ impl Prop for C06 {
     }
 
     fn rule(&self) -> &'static str {
-        "1-6 real nodes in 1-3 data centres (storage latency 0-4 ms per node), generated issuer, all 8 consistency levels, put/put_many/del/del_many, a \
-         generated subset of replicas that drop the request, drop the reply, fail their storage write, answer slowly, \
+        "1-6 (one case in forty: 11-13) real nodes in 1-3 data centres (storage latency 0-4 ms per node), generated issuer, all 8 consistency levels, put/put_many/del/del_many, a \
+         generated subset of replicas that drop the request, drop the reply, fail their storage write, answer slowly (1.7 s or 2.6 s), \
          get the message twice or do not serve the consistency service at all, preceded by 0-3 earlier selections (moves the selector cursors), optionally over \
          pre-existing documents; oracle: Ok => read immediately, the issuer and at least the required number of \
          distinct other nodes (per data centre for Local/EachQuorum) hold the mutation or a newer stamp for each id; \
@@ -252,6 +256,9 @@ async fn run(case: &Case, net: e3::Net) -> Outcome {
                 },
                 Refusal::Duplicated => {
                     n.per_dst.insert(a, Verdict::Duplicate);
+                },
+                Refusal::TooSlow => {
+                    n.per_dst.insert(a, Verdict::Delay(Duration::from_millis(2_600)));
                 },
                 Refusal::StoreFails => nodes[*i].store.inner.lock().fail_all = true,
                 Refusal::NoService => {
@@ -407,6 +414,9 @@ async fn run(case: &Case, net: e3::Net) -> Outcome {
     }
     if !case.storage_latency_ms.is_empty() {
         labels.push("slow_storage");
+    }
+    if case.nodes.len() > 10 {
+        labels.push("more_than_10_nodes");
     }
     if elapsed >= Duration::from_millis(1_700) {
         labels.push("waited_for_slow_replica");
